@@ -47,7 +47,11 @@ func (p *Prog) transparent(fn *ssa.Function) bool {
 		// exported functions are API the rules may name and analyse by body (proof, codec, constructors): they stay atomic.
 		// Extracted helpers are unexported.
 		if n := fn.Name(); n == "" || !(n[0] >= 'a' && n[0] <= 'z') {
-			return false
+			// … except plain constructors/converters of the types packages (NewXFromY): free functions of a module `types`
+			// package that are no validators, no Must* and not part of the signing/codec code the rules analyse by body
+			if !p.isTypesConverter(fn) {
+				return false
+			}
 		}
 		if len(fn.Blocks) > 40 || p.hasOwnStoreOp(fn) {
 			return false
@@ -579,4 +583,16 @@ func derivesFromParams(v ssa.Value, depth int) bool {
 		return derivesFromParams(x.X, depth+1)
 	}
 	return false
+}
+
+// isTypesConverter: an exported free function of x/<module>/types named New…From… / …To… that converts between representations.
+func (p *Prog) isTypesConverter(fn *ssa.Function) bool {
+	if fn.Signature.Recv() != nil || !strings.HasSuffix(pkgPathOf(fn), "/types") || !strings.HasPrefix(pkgPathOf(fn), ModPath+"/x/") {
+		return false
+	}
+	n := fn.Name()
+	if !strings.HasPrefix(n, "New") {
+		return false
+	}
+	return strings.Contains(n, "From") || strings.Contains(n, "To")
 }
